@@ -150,8 +150,11 @@ class C01(core.PropertyCheck):
                 yield {"kind": "enum", "what": "from_roman", "s": s_}
         n_kernel = 0 if tier == "search" else max(300, budget // 6)
         n_docs = budget - n_kernel if tier != "search" else budget
+        dnames = sorted(d["name"] for d in c01gen.tables()[0])
         for i in range(n_docs):
-            g = c01gen.Gen(rng)
+            # every other document favours one directive, each directive of the spec in turn: the special cases of a directive
+            # (nested facets, option combinations of a tabs block, ...) need several of its instances in one document
+            g = c01gen.Gen(rng, focus=dnames[(i // 2) % len(dnames)] if i % 2 == 0 else None)
             r = rng.random()
             if r < 0.50:
                 text = g.doc()
